@@ -487,6 +487,33 @@ def nutation(repo, rep):
     else:
         rep.violation("R-POLY", "Coordinates.nutation_*", "poly-copy", "the argument polynomials of nutation_longitude and nutation_obliquity differ (%d vs %d, %d shared)"
                       % (len(polys["nutation_longitude"]), len(polys["nutation_obliquity"]), len(polys["nutation_longitude"] & polys["nutation_obliquity"])), obligation=True)
+    # the Moon's node the property's main-term model is built on (Moon.longitude_mean_ascending_node) against the node argument of the
+    # nutation series itself: two polynomials in T that describe the same angle - compared over T = -40..20 centuries (years -2000..4000)
+    rep.fn("Moon", "Moon.longitude_mean_ascending_node")
+    try:
+        nouts = outcomes(repo, "Moon", "Moon.longitude_mean_ascending_node", arg_terms={"epoch": ("epoch", T.add(T.num(2451545), T.mul(T.num(36525), T.sym("TT"))))})
+        npolys = [p_ for p_ in pure_polys(all_value_terms(nouts), "TT", min_degree=1) if abs(float(p_[0]) - 125.04) < 0.1]
+        spolys = [p_ for p_ in polys["nutation_longitude"] if abs(float(p_[0]) - 125.04) < 0.1]
+    except AnalysisError:
+        npolys, spolys = [], []
+    nsite = "Moon.Moon.longitude_mean_ascending_node"
+    if len(npolys) != 1 or len(spolys) != 1:
+        rep.inconcl("R-POLY", nsite, "node polynomial of the Moon module / of the nutation series not identified (%d / %d candidates)" % (len(npolys), len(spolys)))
+    else:
+        pa, pb = npolys[0], spolys[0]
+        worst = (Fraction(0), 0)
+        for k in range(-40, 21):
+            d_ = sum(c * Fraction(k) ** i for i, c in enumerate(pa)) - sum(c * Fraction(k) ** i for i, c in enumerate(pb))
+            if abs(d_) > abs(worst[0]):
+                worst = (d_, k)
+        # 1 degree of node moves the main nutation terms by 17.2'' * sin(1 deg) = 0.3'': a tenth of the property's 3.5'' / 1.5'' slack
+        if abs(worst[0]) <= Fraction(1):
+            rep.ok("R-POLY", nsite, "Moon's mean node and the node argument of the nutation series agree to %.4f deg over years -2000..4000 (degree %d vs %d)"
+                   % (float(abs(worst[0])), len(pa) - 1, len(pb) - 1), obligation=True)
+        else:
+            rep.violation("R-POLY", nsite, "node-drift", "the Moon's mean node differs from the node argument of the nutation series by %.2f deg at T = %d centuries (year %d): "
+                          "the 18.6-year main-term model built on it is off by up to %.1f arcsec there (the property allows 3.5 / 1.5)"
+                          % (float(worst[0]), worst[1], 2000 + 100 * worst[1], 17.2 * min(1.0, abs(float(worst[0])) * 3.14159 / 180)), obligation=True)
     if terms["nutation_longitude"] == terms["nutation_obliquity"]:
         rep.ok("R-SIB", "Coordinates.nutation_*", "the two routines differ only in coefficient table and sin/cos")
     else:
